@@ -682,7 +682,9 @@ func twoDSections(r *vlib.Run) {
 			return map[string]interface{}{"clean": desc, "eps": eps, "eps_hex": vlib.Hex(eps), "min_linf_vertex_distance": dmin, "split_vertices": splits, "damaged_segments_hex": hexSegs(damaged, 40)}
 		}
 		m := mesh2Of(damaged)
+		beforeRep := snap2(m)
 		out := m.Repair(eps)
+		untouched2(c, "model2d.Mesh.Repair", m, beforeRep)
 		c.Count("repair2.decided", 1)
 		if splits > 0 {
 			c.Nontrivial(fmt.Sprintf("repair2|%s|%d|%x", desc, splits, eps))
@@ -785,7 +787,9 @@ func twoDSections(r *vlib.Run) {
 			}
 		}
 		m := mesh2Of(damaged)
+		beforeRN := snap2(m)
 		out, count := m.RepairNormals(eps)
+		untouched2(c, "model2d.Mesh.RepairNormals", m, beforeRN)
 		c.Count("normals2.decided", 1)
 		maxDepth := 0
 		for _, d := range depth {
@@ -853,7 +857,9 @@ func twoDSections(r *vlib.Run) {
 			return w
 		}
 		m := mesh2Of(input)
+		beforeH := snap2(m)
 		roots := model2d.MeshToHierarchy(m)
+		untouched2(c, "model2d.MeshToHierarchy", m, beforeH)
 		nodes := flattenHier2(roots)
 		c.Count("hier2.decided", 1)
 		maxDepth := 0
